@@ -35,8 +35,12 @@ class Ids:
         return v
 
 
-def w(ids, conn, src, dst, rep=1, nxt=None, rec=None, noh=False, dialed=None):
+def w(ids, conn, src, dst, rep=1, nxt=None, rec=None, noh=False, dialed=None, trailer=False):
     e = dict(id=ids.take(rep), src=src, dst=dst, b='p%d' % (ids.n,), m='/verif.Svc/Unary')
+    if trailer:      # a final envelope: status + trailer, no body
+        del e['b']
+        e['st'] = dict(code=0, msg='OK')
+        e['t'] = []
     if nxt:
         e['nxt'] = nxt
     if rec:
@@ -417,26 +421,27 @@ def c17_spoof(rng, count):
                     steps = [attach('a', 1), attach('b', 2)]
                     good = [w(ids, 1, 'a', 'b', rep=rng.randint(1, 4)), w(ids, 2, 'b', 'a', rep=rng.randint(1, 3)), w(ids, 1, 'a', 'd')]
                     conn = {'a': 1, 'b': 2}.get(sender, 0)
-                    dress = k % 4
+                    dress = k % 6
                     bad = bad_env(ids, conn, sender, kind, dst, dialed='d' if sender == 'd' else None,
-                                  rec=(['q0'] if dress == 1 else ['q0', 'q1'] if dress == 3 else None),
+                                  rec=(['q0'] if dress == 1 else ['q0', 'q1'] if dress == 3 else [sender] if dress == 4 else ['q0', sender] if dress == 5 else None),
                                   nxt=([dst] if dress in (2, 3) and dst != 'nobody' else None))
                     if sender == 'd':
                         steps.append(w(ids, 1, 'a', 'd'))
                     seq = good[:pos] + [bad] + good[pos:]
                     steps += seq + [Q, w(ids, 2, 'b', 'a', rep=2), Q]
-                    out.append(scen('C17', 'spoof %s by %s at %d dst=%s%s' % (kind, sender, pos, dst, ['', ' +record', ' +return route', ' +record+return route'][dress]), steps, dial={'d': 'ok'}))
+                    out.append(scen('C17', 'spoof %s by %s at %d dst=%s%s' % (kind, sender, pos, dst, ['', ' +record', ' +return route', ' +record+return route', ' +record ending in its own name', ' +2-hop record ending in its own name'][dress]), steps, dial={'d': 'ok'}))
                     k += 1
     rng.shuffle(out)
     return out[:count]
 
 
-ROLES = ['stuck', 'rfail', 'wfail', 'dialerr', 'slowdial', 'slowerr', 'unknown']
+# (rfailctx / wfailctx / rfailtmp: the same failures reported with errors that wrap a context error or call themselves temporary)
+ROLES = ['stuck', 'rfail', 'wfail', 'dialerr', 'slowdial', 'slowerr', 'unknown', 'rfailctx', 'wfailctx', 'rfailtmp']
 
 
 def role_setup(role):
     """third peer t; returns (dial map, setup steps after attaching a, b[, t])"""
-    if role in ('stuck', 'rfail', 'wfail'):
+    if role in ('stuck', 'rfail', 'wfail', 'rfailctx', 'wfailctx', 'rfailtmp'):
         return {}, [attach('t', 3)], [fault(role, 3)]
     plan = {'dialerr': 'err', 'slowdial': 'slow', 'slowerr': 'slowerr', 'unknown': None}[role]
     return ({'t': plan} if plan else {}), [], []
@@ -469,6 +474,27 @@ def c17_roles(rng, count):
         if role == 'stuck' and rng.random() < 0.5:
             steps += [fault('unstick', 3), Q]
         out.append(scen('C17', 'role %s when=%d to_t=%d #%d' % (role, when, tt, k), steps, dial=dial))
+    return out
+
+
+def c17_flood(rng):
+    """a stuck destination with more envelopes outstanding than its buffer holds (the surplus is dropped: known
+    finding D11 of C16), THEN envelopes of every shape for it - including final ones (status + trailer): traffic
+    between the other peers must not be delayed"""
+    out = []
+    for n in (17, 20, 30):
+        for last in ('data', 'trailer', 'trailers'):
+            ids = Ids()
+            steps = [attach('a', 1), attach('b', 2), attach('t', 3), fault('stuck', 3),
+                     w(ids, 1, 'a', 't', rep=n), Q]
+            if last == 'data':
+                steps += [w(ids, 2, 'b', 't', rep=2)]
+            elif last == 'trailer':
+                steps += [w(ids, 1, 'a', 't', trailer=True)]
+            else:
+                steps += [w(ids, 1, 'a', 't', trailer=True), w(ids, 2, 'b', 't', trailer=True)]
+            steps += [Q, w(ids, 2, 'b', 'a', rep=2), w(ids, 1, 'a', 'b', rep=2), Q]
+            out.append(scen('C17', 'stuck destination with %d outstanding, then %s for it' % (n, last), steps))
     return out
 
 
@@ -587,12 +613,12 @@ def c17_held(rng, count):
 
 def generate_c17(tier, rng):
     if tier == 'quick':
-        return (c17_spoof(rng, 80) + c17_roles(rng, 90) + c17_reattach(rng, 42) + c17_reattach_healthy(rng, 12) +
+        return (c17_spoof(rng, 120) + c17_roles(rng, 120) + c17_flood(rng) + c17_reattach(rng, 42) + c17_reattach_healthy(rng, 12) +
                 c17_cancel(rng, 40) + c17_held(rng, 48))
     s = []
     for i in range(6):
         s += c17_spoof(rng, 135)
-    s += c17_roles(rng, 2100) + c17_reattach(rng, 600) + c17_reattach_healthy(rng, 240) + c17_held(rng, 720)
+    s += c17_roles(rng, 2100) + c17_flood(rng) + c17_reattach(rng, 600) + c17_reattach_healthy(rng, 240) + c17_held(rng, 720)
     for i in range(9):
         s += c17_cancel(rng, 1000)
     return s
